@@ -19,7 +19,7 @@ RULE = ("programs: Hypothesis build programs (<= 8 items per circuit, nesting <=
         "omitted, nothing else present; the instruction multiset must also equal the translation of the program's own "
         "items x enclosing counts (annotations keep their fields through every copy); in about half of the cases the unfinished circuit is also exported once before a generated top-level item is added (that export = translated listing of the prefix) and the finished object is exported once more after it was unrolled; after apply_modifiers() the export equals the translated (now count-free) "
         "listing, and has the same instruction multiset and measurement count as before. library: repetition-code "
-        "circuits d=2..4, 0..6 cycles: identical expanded program before / after unrolling. Non-trivial = >= 1 "
+        "circuits d=2..4, 0..6 cycles, and the simplified constructor with 0, 1, 3 cycles (0 cycles = a sub-circuit with repetition count 0): identical expanded program before / after unrolling. Non-trivial = >= 1 "
         "unsupported kind, >= 1 annotation and >= 1 nested block; distinct = canonical JSON.")
 ASSUMPTIONS = [
     "the operation listing is taken as given (its correctness is C02); the exported program is compared with it",
@@ -311,14 +311,20 @@ def items_library(tier):
         for c in cyc:
             for refocus in (True, False):
                 yield {"d": d, "cycles": c, "refocus": refocus}
+        # the simplified constructor hands its cycle count to a repetition strategy as it is (0 cycles = count 0)
+        for c in (0, 1, 3):
+            yield {"d": d, "cycles": c, "refocus": True, "ctor": "simplified"}
 
 
 def body_library(case, ctx):
     from qce_circuit.addon_stim.factory_manager import to_stim
     from qce_circuit.language.intrf_declarative_circuit import InitialStateContainer, InitialStateEnum
     from qce_circuit.library.repetition_code.circuit_constructors import construct_repetition_code_circuit
+    from qce_circuit.library.repetition_code.circuit_constructors import construct_repetition_code_circuit_simplified
     from qce_circuit.library.repetition_code.circuit_components import RepetitionCodeDescription
     validate_table()
+    if case.get("ctor") == "simplified":
+        construct_repetition_code_circuit = construct_repetition_code_circuit_simplified
     d, cycles = case["d"], case["cycles"]
     ctx.case(case, nontrivial=cycles >= 2, classes=[f"d={d}", f"cycles>=3={cycles >= 3}"])
     init = InitialStateContainer.from_ordered_list([InitialStateEnum.ONE if i % 2 else InitialStateEnum.ZERO for i in range(d)])
